@@ -118,10 +118,11 @@ type combCase struct {
 	Iters   []string `json:"iters"`   // per iteration (id = index+1), one behaviour letter per component
 	Workers int      `json:"workers"` // 1 = sequential (deterministic)
 	Bare    bool     `json:"bare"`    // the harness registers no per-iteration Cleanup of its own (no end-of-iteration record)
+	Reuse   bool     `json:"reuse"`   // the very same combined ScenarioFn value was already set up and run once before (a second run of it)
 }
 
 func (c combCase) key() string {
-	return fmt.Sprintf("%d|%s|%s|%s|%d|%v", c.N, c.tree(), c.Setup, strings.Join(c.Iters, ","), c.Workers, c.Bare)
+	return fmt.Sprintf("%d|%s|%s|%s|%d|%v|%v", c.N, c.tree(), c.Setup, strings.Join(c.Iters, ","), c.Workers, c.Bare, c.Reuse)
 }
 
 func (c combCase) tree() string {
@@ -207,6 +208,9 @@ func (c combCase) classes() []string {
 	}
 	if c.Bare {
 		add("no-harness-cleanup")
+	}
+	if c.Reuse {
+		add("second-run-of-the-same-combined-scenario")
 	}
 	if c.Tree != "" && strings.Count(c.Tree, "(") > 1 {
 		add("nested")
@@ -346,12 +350,17 @@ func (e event) String() string {
 }
 
 type recorder struct {
-	mu  sync.Mutex
-	evs []event
+	mu    sync.Mutex
+	evs   []event
+	muted bool // warm-up run of a reused combined scenario: nothing is recorded
 }
 
 func (r *recorder) add(e event) {
 	r.mu.Lock()
+	if r.muted {
+		r.mu.Unlock()
+		return
+	}
 	r.evs = append(r.evs, e)
 	r.mu.Unlock()
 }
@@ -400,6 +409,33 @@ func execute(c combCase) (out outcome) {
 	if err != nil {
 		out.problem = "VERIF-INFRA: " + err.Error()
 		return out
+	}
+	if c.Reuse {
+		// the same combined ScenarioFn value is set up (and one iteration of it run) once before the
+		// observed run, the way a process executing the scenario twice would do
+		rec.mu.Lock()
+		rec.muted = true
+		rec.mu.Unlock()
+		func() {
+			defer func() { _ = recover() }()
+			warm := workers.NewActiveScenario(&scenarios.Scenario{Name: "combined", ScenarioFn: combined},
+				metrics.NewInstance(prometheus.NewRegistry(), true, nil), &progress.Stats{}, discard, discardLogrus)
+			warm.Setup()
+			if !warm.Failed() {
+				ctx, cancel := context.WithCancel(context.Background())
+				pm := workers.New(1, warm)
+				pm.NewContinuousPool(1).Start(ctx)
+				select {
+				case <-pm.WaitForCompletion():
+				case <-time.After(completionDeadline):
+				}
+				cancel()
+			}
+			warm.Teardown()
+		}()
+		rec.mu.Lock()
+		rec.muted = false
+		rec.mu.Unlock()
 	}
 	// The observer only notes which handle f1 hands to the combined scenario in each phase.
 	observer := func(t *f1testing.T) f1testing.RunFn {
@@ -737,6 +773,7 @@ func genCase(t *rapid.T, maxIters int) combCase {
 		c.Iters[i] = drawBehs(t, c.N, profile, "iterBeh")
 	}
 	c.Bare = rapid.IntRange(0, 2).Draw(t, "bare") == 0
+	c.Reuse = rapid.IntRange(0, 3).Draw(t, "reuse") == 0
 	return c
 }
 
